@@ -4,6 +4,7 @@ returns their bodies -/
 import MutagenModel.Proofs.Container.Mp4LoadCap
 import MutagenModel.Proofs.Container.Mp4New
 import MutagenModel.Proofs.Container.Mp4Reader
+import MutagenModel.Proofs.Container.Mp4Reader2
 set_option linter.unusedVariables false
 namespace Mutagen.Mp4C
 open Mutagen
@@ -241,29 +242,67 @@ theorem loadPure_tags (g : Bytes) (atoms : List PAtom) (cs : Option (List (Bytes
 
 /-- an item as `MP4Tags._render` writes it, with the value it stands for: text (`__render_text`), integers
 (`__render_integer`: each value with the minimum width of its atom and the bytes that gives), pairs (`__render_pair` with
-the trailing zero word, `__render_pair_no_trailing` without) -/
+the trailing zero word, `__render_pair_no_trailing` without), covers (`__render_cover`: `struct.pack(">2I", imageformat, 0)`
+in front of the bytes, for ANY 32-bit `imageformat`), freeform (`__render_freeform`: `mean`, `name`, and every value with its
+`version << 24 | dataformat`), bools (`__render_bool`: one byte, type INTEGER).  `genreIdx` is NOT written by mutagen — there
+is no render function for `gnre` — it is the atom other writers leave: an ID3v1 genre index + 1 as a 16-bit integer. -/
 inductive RItem
   | text (name : Bytes) (texts : List (List Nat))
   | ints (name : Bytes) (vals : List (Int × Nat × Bytes))
   | pairs (name : Bytes) (trailing : Bool) (ps : List (Nat × Nat))
+  | covers (name : Bytes) (cs : List (Nat × Bytes))
+  | freeform (mean nm : Bytes) (ds : List Mp4Tags.Data)
+  | bool (name : Bytes) (b : Bool)
+  | genreIdx (i : Int) (g : List Nat)
 
 open Mutagen.Mp4R Mutagen.Mp4Tags
 
+/-- the name of the atom in the file -/
 def RItem.name : RItem → Bytes
-  | .text n _ => n | .ints n _ => n | .pairs n _ _ => n
+  | .text n _ => n | .ints n _ => n | .pairs n _ _ => n | .covers n _ => n | .freeform _ _ _ => freeformName
+  | .bool n _ => n | .genreIdx _ _ => nGnre
 
+/-- the `data` atoms of the kinds that consist of `data` atoms only -/
 def RItem.datas : RItem → List Data
   | .text _ texts => texts.map fun x => ⟨0, 1, Utf8.encode x⟩
   | .ints _ vals => vals.map fun v => ⟨0, 21, v.2.2⟩
   | .pairs _ tr ps => ps.map fun p => ⟨0, 0, renderPair p.1 p.2 tr⟩
+  | .covers _ cs => cs.map fun c => ⟨c.1 / 16777216, c.1 % 16777216, c.2⟩
+  | .freeform _ _ ds => ds
+  | .bool _ b => [⟨0, 21, [if b then 1 else 0]⟩]
+  | .genreIdx i _ => [⟨0, 0, toSignedBE 2 i⟩]
 
+/-- the payload of the atom -/
+def RItem.body : RItem → Bytes
+  | .freeform mean nm ds => freeformBody mean nm ds
+  | r => itemBody r.datas
+
+/-- the key of the dictionary the reader files the value under: the atom's name, except `----:mean:name` for freeform items
+and `©gen` for a `gnre` atom -/
+def RItem.key : RItem → Bytes
+  | .freeform mean nm _ => freeformName ++ [0x3a] ++ mean ++ [0x3a] ++ nm
+  | .genreIdx _ _ => nGen
+  | r => r.name
+
+/-- the value read: an `imageformat` other than 13 (JPEG) and 14 (PNG) is read as JPEG; a `gnre` index is read as the genre's
+NAME (a text value) -/
 def RItem.val : RItem → TagVal
   | .text _ texts => .text texts
   | .ints _ vals => .ints (vals.map (·.1))
   | .pairs _ _ ps => .pairs ps
+  | .covers _ cs => .covers (cs.map fun c => (if c.1 ≠ 13 ∧ c.1 ≠ 14 then 13 else c.1, c.2))
+  | .freeform _ _ ds => .freeform ds
+  | .bool _ b => .bool b
+  | .genreIdx _ g => .text [g]
+
+/-- what the reader does to the dictionary: bools are assigned (`self[key] = value`), all others extend the list under the key -/
+def RItem.apply (r : RItem) (its : List (Bytes × TagVal)) : List (Bytes × TagVal) :=
+  match r with
+  | .bool n b => setSingle n (.bool b) its
+  | r => addMulti r.key r.val its
 
 /-- the item atom in the file -/
-def RItem.atom (r : RItem) : Atom := .leaf r.name false (itemBody r.datas)
+def RItem.atom (r : RItem) : Atom := .leaf r.name false r.body
 
 /-- what the codec can render, under a name whose parser in the `__atoms` table is the matching one -/
 def RItem.OK : RItem → Prop
@@ -271,33 +310,68 @@ def RItem.OK : RItem → Prop
       (∀ x ∈ texts, (Utf8.encode x).length + 16 < 256 ^ 4)
   | .ints n vals => (∃ k, kindOf n = some (.integer k)) ∧ ∀ v ∈ vals, renderInt v.1 v.2.1 = some v.2.2
   | .pairs n _ ps => (kindOf n = some .pair ∨ kindOf n = some .pairNoTrailing) ∧ ∀ p ∈ ps, p.1 < 65536 ∧ p.2 < 65536
+  | .covers n cs => kindOf n = some .cover ∧ ∀ c ∈ cs, c.1 < 256 ^ 4 ∧ c.2.length + 16 < 256 ^ 4
+  | .freeform mean nm ds => (∀ d ∈ ds, DataOK d) ∧ mean.length + 12 < 256 ^ 4 ∧ nm.length + 12 < 256 ^ 4
+  | .bool n _ => kindOf n = some .bool
+  | .genreIdx i g => (-32768 ≤ i ∧ i ≤ 32767) ∧ genreAt (i - 1) = some g
+
+theorem kindOf_freeformName : kindOf freeformName = some .freeform := by decide +kernel
+theorem kindOf_nGnre : kindOf nGnre = some .genre := by decide +kernel
 
 theorem loadChild_ritem (t : Tags) (r : RItem) (h : r.OK) :
-    loadChild t r.name ((itemBody r.datas).length + 8) (itemBody r.datas) =
-      some { t with items := addMulti r.name r.val t.items } := by
+    loadChild t r.name (r.body.length + 8) r.body = some { t with items := r.apply t.items } := by
   cases r with
   | text n texts =>
     obtain ⟨hk, hs, hl⟩ := h
     unfold loadChild
     rcases hk with hk | hk
-    · simp only [RItem.name, RItem.datas, RItem.val, hk, parseText_rendered false texts hs hl]
-    · simp only [RItem.name, RItem.datas, RItem.val, hk, parseText_rendered true texts hs hl]
+    · simp only [RItem.name, RItem.body, RItem.datas, RItem.apply, RItem.key, RItem.val, hk, parseText_rendered false texts hs hl]
+    · simp only [RItem.name, RItem.body, RItem.datas, RItem.apply, RItem.key, RItem.val, hk, parseText_rendered true texts hs hl]
   | ints n vals =>
     obtain ⟨⟨k, hk⟩, hv⟩ := h
     unfold loadChild
-    simp only [RItem.name, RItem.datas, RItem.val, hk, parseInts_rendered vals hv]
+    simp only [RItem.name, RItem.body, RItem.datas, RItem.apply, RItem.key, RItem.val, hk, parseInts_rendered vals hv]
   | pairs n tr ps =>
     obtain ⟨hk, hp⟩ := h
     unfold loadChild
     rcases hk with hk | hk
-    · simp only [RItem.name, RItem.datas, RItem.val, hk, parsePairs_rendered tr ps hp]
-    · simp only [RItem.name, RItem.datas, RItem.val, hk, parsePairs_rendered tr ps hp]
+    · simp only [RItem.name, RItem.body, RItem.datas, RItem.apply, RItem.key, RItem.val, hk, parsePairs_rendered tr ps hp]
+    · simp only [RItem.name, RItem.body, RItem.datas, RItem.apply, RItem.key, RItem.val, hk, parsePairs_rendered tr ps hp]
+  | covers n cs =>
+    obtain ⟨hk, hc⟩ := h
+    unfold loadChild
+    have hok : ∀ d ∈ cs.map (fun c : Nat × Bytes => (⟨c.1 / 16777216, c.1 % 16777216, c.2⟩ : Data)), DataOK d := by
+      intro d hd
+      obtain ⟨c, hc1, rfl⟩ := List.mem_map.mp hd
+      obtain ⟨h1, h2⟩ := hc c hc1
+      exact ⟨by show c.1 / 16777216 < 256; omega, by show c.1 % 16777216 < 16777216; omega, h2⟩
+    have hfm : (cs.map (fun c : Nat × Bytes => (⟨c.1 / 16777216, c.1 % 16777216, c.2⟩ : Data))).map (fun d => (coverFmt d, d.payload)) =
+        cs.map fun c => (if c.1 ≠ 13 ∧ c.1 ≠ 14 then 13 else c.1, c.2) := by
+      rw [List.map_map]
+      apply List.map_congr_left
+      intro c _
+      have e : c.1 / 16777216 * 16777216 + c.1 % 16777216 = c.1 := by omega
+      simp only [Function.comp, coverFmt, e]
+    simp only [RItem.name, RItem.body, RItem.datas, RItem.apply, RItem.key, RItem.val, hk, parseCovers_rendered _ hok, hfm]
+  | freeform mean nm ds =>
+    obtain ⟨hd, hm, hn⟩ := h
+    unfold loadChild
+    simp only [RItem.name, RItem.body, RItem.apply, RItem.key, RItem.val, kindOf_freeformName,
+      parseFreeform_rendered mean nm ds hd hm hn]
+  | bool n b =>
+    unfold loadChild
+    have hk : kindOf n = some .bool := h
+    simp only [RItem.name, RItem.body, RItem.datas, RItem.apply, hk, parseBool_rendered n b t.items]
+  | genreIdx i g =>
+    obtain ⟨hi, hg⟩ := h
+    unfold loadChild
+    simp only [RItem.name, RItem.body, RItem.datas, RItem.apply, RItem.key, RItem.val, kindOf_nGnre, parseGenre_index i g hi hg]
 
-/-- mutagen's reader over the item atoms the codec rendered: every value comes back, each item added under its name in the
-order of the file (`setdefault(key, []).extend(values)`), nothing fails -/
+/-- mutagen's reader over the item atoms the codec rendered: every value comes back, each item filed under its key in the
+order of the file (`setdefault(key, []).extend(values)`; `self[key] = value` for bools), nothing fails -/
 theorem loadTags_ritems : ∀ (ris : List RItem) (t : Tags), (∀ r ∈ ris, r.OK) →
-    loadTags (ris.map fun r => (r.name, (itemBody r.datas).length + 8, itemBody r.datas)) t =
-      some { t with items := ris.foldl (fun its r => addMulti r.name r.val its) t.items } := by
+    loadTags (ris.map fun r => (r.name, r.body.length + 8, r.body)) t =
+      some { t with items := ris.foldl (fun its r => r.apply its) t.items } := by
   intro ris
   induction ris with
   | nil => intro t _; rfl
@@ -373,10 +447,33 @@ theorem addMulti_fresh (key : Bytes) (v : TagVal) : ∀ (acc : List (Bytes × Ta
     simp only [addMulti, hk, ↓reduceIte, List.cons_append]
     rw [ih (fun x hx => h x (by simp [hx]))]
 
-/-- items with pairwise different names: the reader's dictionary is the list of `(name, value)` in the order of the file -/
+theorem setSingle_fresh (key : Bytes) (v : TagVal) : ∀ (acc : List (Bytes × TagVal)), (∀ kv ∈ acc, kv.1 ≠ key) →
+    setSingle key v acc = acc ++ [(key, v)] := by
+  intro acc
+  induction acc with
+  | nil => intro _; rfl
+  | cons kv r ih =>
+    intro h
+    obtain ⟨k, old⟩ := kv
+    have hk : k ≠ key := h (k, old) (by simp)
+    simp only [setSingle, hk, ↓reduceIte, List.cons_append]
+    rw [ih (fun x hx => h x (by simp [hx]))]
+
+theorem RItem.apply_fresh (r : RItem) (acc : List (Bytes × TagVal)) (h : ∀ kv ∈ acc, kv.1 ≠ r.key) :
+    r.apply acc = acc ++ [(r.key, r.val)] := by
+  cases r with
+  | bool n b => exact setSingle_fresh n (.bool b) acc h
+  | text n x => exact addMulti_fresh _ _ acc h
+  | ints n x => exact addMulti_fresh _ _ acc h
+  | pairs n tr x => exact addMulti_fresh _ _ acc h
+  | covers n x => exact addMulti_fresh _ _ acc h
+  | freeform m n x => exact addMulti_fresh _ _ acc h
+  | genreIdx i g => exact addMulti_fresh _ _ acc h
+
+/-- items with pairwise different keys: the reader's dictionary is the list of `(key, value)` in the order of the file -/
 theorem foldl_addMulti_distinct : ∀ (ris : List RItem) (acc : List (Bytes × TagVal)),
-    (ris.map RItem.name).Nodup → (∀ kv ∈ acc, ∀ r ∈ ris, kv.1 ≠ r.name) →
-    ris.foldl (fun its r => addMulti r.name r.val its) acc = acc ++ ris.map fun r => (r.name, r.val) := by
+    (ris.map RItem.key).Nodup → (∀ kv ∈ acc, ∀ r ∈ ris, kv.1 ≠ r.key) →
+    ris.foldl (fun its r => r.apply its) acc = acc ++ ris.map fun r => (r.key, r.val) := by
   intro ris
   induction ris with
   | nil => intro acc _ _; simp
@@ -384,8 +481,8 @@ theorem foldl_addMulti_distinct : ∀ (ris : List RItem) (acc : List (Bytes × T
     intro acc hnd hacc
     simp only [List.map_cons, List.nodup_cons] at hnd
     simp only [List.foldl_cons]
-    rw [addMulti_fresh r.name r.val acc (fun kv hkv => hacc kv hkv r (by simp))]
-    rw [ih (acc ++ [(r.name, r.val)]) hnd.2 (by
+    rw [RItem.apply_fresh r acc (fun kv hkv => hacc kv hkv r (by simp))]
+    rw [ih (acc ++ [(r.key, r.val)]) hnd.2 (by
       intro kv hkv x hx
       rcases List.mem_append.mp hkv with h1 | h1
       · exact hacc kv h1 x (by simp [hx])
